@@ -245,6 +245,11 @@ def check(ctx: Ctx) -> str:
                       f"{mod}.{ci.name} defines (or aliases) __getitem__: SandboxedEnvironment.getitem returns `obj[key]` without asking is_safe_attribute, so `ns['__class__']` / `ns['_Namespace__attrs']` (also through `map(attribute=...)` and format fields `{{0[__class__]}}`) hands a sandboxed template whatever that method returns for an underscore name",
                       ci.loc(), detail={"class": f"{mod}.{ci.name}", "reviewed": reviewed.get((mod, ci.name))})
     ctx.floor("classes with __getitem__", n_gi, 4)
+    # the immutable sandbox only ever *adds* refusals: its is_safe_attribute is the base
+    # decision AND NOT modifies_known_mutable (rule owned by C19)
+    from . import c19
+
+    ctx.run_imported("C19", {"R2"}, c19.check)
     return __doc__ or ""
 
 
